@@ -124,9 +124,16 @@ class Interp:
     def atom(self, name):
         return ('f', name)
 
+    def _is_self(self, l):
+        return l == 1 or self.env.get(l) == ('r', 'self')
+
     def place(self, p):
         l = p['l']
         pr = p['pr']
+        if self._is_self(l) and not pr:
+            return ('r', 'self')          # a (re)borrow of self handed to an inlined helper
+        if self._is_self(l) and pr and pr[0]['k'] == 'deref':
+            l = 1
         if l == 1 and pr and pr[0]['k'] == 'deref':
             if len(pr) == 2 and pr[1]['k'] == 'field':
                 n = pr[1]['n']
@@ -251,10 +258,16 @@ class Interp:
             raise NotAnalysable('unop %s' % rv['op'])
         if k == 'cast' and rv['ck'] in ('IntToInt',):
             return self.operand(rv['o'])
+        if k in ('ref', 'rawptr'):
+            p = rv['p']
+            if self._is_self(p['l']) and len(p['pr']) == 1 and p['pr'][0]['k'] == 'deref':
+                return ('r', 'self')
         raise NotAnalysable('rvalue %s' % k)
 
     def store(self, p, v):
         l, pr = p['l'], p['pr']
+        if l != 1 and self._is_self(l) and pr and pr[0]['k'] == 'deref':
+            l = 1
         if l == 1 and pr and pr[0]['k'] == 'deref' and len(pr) == 2 and pr[1]['k'] == 'field':
             n = pr[1]['n']
             if n == 'count' and v[0] == 'i':
